@@ -264,12 +264,24 @@ pub fn main() -> i32 {
         },
         maxsteps,
     );
-    for h in handles {
-        let _ = h.join();
+    if status == "done" {
+        for h in handles {
+            let _ = h.join();
+        }
+    } else {
+        // deadlock / step limit: the threads are stuck on each other; report what happened and leave
+        std::thread::sleep(std::time::Duration::from_millis(20));
     }
     let g = s.inner.lock().unwrap();
     for l in g.log.iter() {
         out.line(l);
+    }
+    if status == "deadlock" {
+        for (t, th) in g.threads.iter().enumerate() {
+            if let Some(p) = th.pending.as_ref() {
+                out.line(&format!("BLOCKED t{} waiting for {:?} {}", t, p.op, g.loc_name(p.addr)));
+            }
+        }
     }
     let sch: Vec<String> = g.schedule.iter().map(|t| t.to_string()).collect();
     out.line(&format!("SCHEDULE {}", sch.join(" ")));
